@@ -19,6 +19,8 @@ inductive NetKind
   /-- `Node_Signal`: forwards -/
   | signal
   | node (k : NodeKind) (ty : CType)
+  /-- a tristate pin: `ins = [data, outputEnable]`, the external pad value is `env[k]` -/
+  | tristate (k : Nat)
   deriving Repr, Inhabited
 
 structure NetNode where
@@ -41,6 +43,9 @@ def evalNetNode (env : Env) (vals : Vals) (n : NetNode) : Option BV4 :=
   | .input k => some (env.getD k (undef n.w))
   | .signal => (gather vals n.ins).getD 0 none
   | .node k _ => some (evalNode k n.w (gather vals n.ins))
+  | .tristate k =>
+    let g := gather vals n.ins
+    some (evalTristate n.w [g.getD 0 none, g.getD 1 none, some (env.getD k (undef n.w))])
 
 /-- evaluate the nodes in order, appending each value -/
 def evalNetFrom (env : Env) : List NetNode → Vals → Vals
